@@ -1,10 +1,15 @@
-import Upd
+import Upd.Ingest
+/-! Model side of the `ingest` correspondence profile (C17): reads the layout definition and the INGEST / REOPEN /
+    CRASH requests of harness/inpkg/store/ingest_harness_test.go and prints the canonical observation of
+    `Upd.ingest` for each request. -/
 open Upd
 
 def kvI (toks : List String) (k : String) : String :=
   match toks.find? (fun t => t.startsWith (k ++ "=")) with
   | some t => (t.drop (k.length + 1)).toString
   | none => ""
+
+def hasKey (toks : List String) (k : String) : Bool := toks.any (fun t => t.startsWith (k ++ "="))
 
 /-- split a comma separated list of descriptors whose digest tokens may themselves contain commas inside I(...) -/
 def splitTop (s : String) : List String := Id.run do
@@ -25,50 +30,148 @@ def parseD (s : String) : Desc :=
   let parts := s.splitOn "/"
   let n := parts.length
   if n < 5 then {} else
-  let ann := parts[n-1]!
-  let atRaw := parts[n-2]!
-  -- artifact types like x/a contain a slash: the harness only uses "", "x/a", "x/b", "cfg", "empty"
-  let (aty, k) := if (atRaw = "a" ∨ atRaw = "b") ∧ n ≥ 6 ∧ parts[n-3]! = "x" then ("x/" ++ atRaw, 3) else (atRaw, 2)
-  let size := parts[n-k-1]!
-  let mt := parts[n-k-2]!
-  let dig := "/".intercalate (parts.take (n-k-2))
-  { dig := dig, mt := mt, size := size.toNat?.getD 0, atype := aty, rann := ann }
+  { dig := "/".intercalate (parts.take (n-4)), mt := parts[n-4]!, size := parts[n-3]!.toNat?.getD 0,
+    atype := parts[n-2]!, rann := parts[n-1]! }
+
+def parseDs (s : String) : List Desc := (splitTop s).map parseD
 
 def insertS (x : String) : List String → List String
   | [] => [x]
   | y :: ys => if x ≤ y then x :: y :: ys else y :: insertS x ys
 def sortSS (l : List String) : List String := l.foldl (fun a x => insertS x a) []
+def uniqS : List String → List String
+  | a :: b :: r => if a = b then uniqS (b :: r) else a :: uniqS (b :: r)
+  | l => l
 
-def run (s : IState) (mans : List String) : String :=
-  let o := ingest s
-  if o.err then "err=1" else
-  let ms := o.st.index.manifests
-  -- compare modulo untagged entries of a digest that is listed anyway (see the Go side)
-  let ms := ms.filter fun d => !(d.ann.tag = "" ∧ d.ann.subj = "" ∧ ms.any (fun o => o.dig = d.dig ∧ (o.mt ≠ d.mt ∨ o.ann.tag ≠ "" ∨ o.ann.subj ≠ "")))
-  let ents := sortSS (ms.map fun d => s!"{d.dig}:{d.mt}:{d.ann.tag}:{d.ann.subj}")
-  let found := mans.filter fun m => (getDescDig o.st.index m).isSome
-  s!"err=0 mod={o.mod} I[{" ".intercalate ents}] F[{" ".intercalate found}] B[{" ".intercalate (sortSS o.st.newBlobs)}]"
+def subjects : List String := ["S1", "S2", "S3", "Q1"]
 
-partial def loop (h : IO.FS.Stream) (out : IO.FS.Stream) (s : IState) (mans : List String) : IO Unit := do
-  let line ← h.getLine
-  if line.isEmpty then return ()
-  let l := line.trimAscii.toString
-  match (l.splitOn " ").filter (· ≠ "") with
-  | ["CASE"] => loop h out {} []
+/-- index entries, canonical: sorted set, modulo untagged entries of a digest that is listed anyway -/
+def canonEntries (ms : List Desc) : String :=
+  let str := fun (d : Desc) => s!"{d.dig}:{d.mt}:{d.ann.tag}:{d.ann.subj}"
+  let keep := ms.filter fun d => !(d.ann.tag = "" ∧ d.ann.subj = "" ∧ ms.any (fun o => o.dig = d.dig ∧ str o ≠ str d))
+  " ".intercalate (uniqS (sortSS (keep.map str)))
+
+def canonDisk (x : IState) : String := s!"conv={if x.converted then 1 else 0};{canonEntries x.index.manifests}"
+
+structure Def where
+  st : IState := {}
+  mans : List String := []
+
+def observe (df : Def) (store : String) (o : IState) (disk : IState) : String :=
+  let rs := if !o.converted then "404" else
+    ";".intercalate (subjects.filterMap fun s =>
+      match getBySubj o.index s with
+      | none => none
+      | some e => match getIndex o.blobs e.dig with
+        | some (some ds) => some (s ++ "={" ++ ",".intercalate (sortSS (ds.map fmtD)) ++ "}")
+        | _ => some (s ++ "=?"))
+  let found := df.mans.filter fun m => (getDescDig o.index m).isSome
+  let newB := (o.blobs.drop df.st.blobs.length).map (·.1)
+  let cs := sortSS (o.index.children.map (·.dig))
+  let _ := store
+  s!"err=0 conv={if o.converted then 1 else 0} I[{canonEntries o.index.manifests}] C[{" ".intercalate cs}] R[{rs}] F[{" ".intercalate found}] B[{" ".intercalate (sortSS newB)}] D[{canonDisk disk}]"
+
+/-- branch coverage of one conversion, measured on the model (printed after " #cov", not compared) -/
+def coverage (x : IState) : String :=
+  if x.converted then "preconverted=1" else
+  let p := pass1 x.index.manifests
+  let c := phase1 x
+  let skip := (p.digestTags.filter fun d => match getIndex x.blobs d.dig with | some (some _) => false | _ => true).length
+  let adopt := p.digestTags.length - skip - c.rm.length
+  -- invalid only because another response is recorded for the subject
+  let clash := (c.rm.filter fun d => match getIndex x.blobs d.dig with
+    | some (some cur) => (validReferrer x.blobs cur).valid
+    | _ => false).length
+  let (_, ex, merged, dd, viaAdopt) := c.addResp.foldl (fun (acc : IState × Nat × Nat × Nat × Nat) kv =>
+    let (s, ex, merged, dd, va) := acc
+    let old := oldContent s.blobs c.respOf kv.1
+    let all := kv.2 ++ old
+    let ds := dedup all
+    let ex' := if (lookup s.blobs (idxName ds)).isSome then ex + 1 else ex
+    let va' := if (lookupResp c.respOf kv.1).map (·.dig) ≠ (lookupResp p.respOf kv.1).map (·.dig) then va + 1 else va
+    (regenStep c.respOf s kv, ex', (if old.isEmpty then merged else merged + 1), dd + (all.length - ds.length), va'))
+    ({ x with index := c.index }, 0, 0, 0, 0)
+  let o := ingest id x
+  let rec iters (fuel : Nat) (a : Scan) (n nested : Nat) : Nat × Nat :=
+    match fuel with
+    | 0 => (n, nested)
+    | fuel + 1 =>
+      match scanIter o.blobs a with
+      | none => (n, nested)
+      | some a' =>
+        let isNested := match a.queue with
+          | c :: _ => !(p.scan.any (·.dig = c.dig))
+          | [] => false
+        iters fuel a' (n + 1) (if isNested then nested + 1 else nested)
+  let (it, nested) := iters 10000 { queue := p.scan, seen := p.seen, children := [] } 0 0
+  s!"tags={p.digestTags.length} skip={skip} adopt={adopt} requeue={c.rm.length} clash={clash} regen={c.addResp.length} exists={ex} merged={merged} viaAdopt={viaAdopt} dedup={dd} scan={it} nested={nested} children={o.index.children.length}"
+
+def runIngest (df : Def) (store : String) : String :=
+  let x := df.st
+  let o := ingest id x
+  let disk := if store = "dir" ∧ ingestMod x then persist o else x
+  let line := observe df store o disk
+  -- the observation must not depend on the order in which the regenerated responses are inserted
+  let o' := ingest List.reverse x
+  let line' := observe df store o' (if store = "dir" ∧ ingestMod x then persist o' else x)
+  (if line = line' then line else line ++ " ORDER-DEPENDENT[" ++ line' ++ "]") ++ " #cov " ++ coverage x
+
+def runReopen (df : Def) (store : String) : String :=
+  let x := df.st
+  let o1 := ingest id x
+  if store = "dir" then
+    let x2 := if ingestMod x then persist o1 else { x with blobs := o1.blobs }
+    let o2 := ingest id x2
+    observe df store o2 x2
+  else
+    observe df store (ingest id x) x
+
+def runCrash (df : Def) (store : String) (mask : Nat) : String :=
+  let x := df.st
+  let o1 := ingest id x
+  let nb := o1.blobs.drop x.blobs.length
+  let names := sortSS (nb.map (·.1))
+  let m := mask % (2 ^ names.length)
+  let chosen := (List.range names.length).filter (fun i => (m / 2 ^ i) % 2 = 1) |>.filterMap (fun i => names[i]?)
+  let pre := chosen.filterMap fun n => nb.find? (·.1 = n)
+  let x' := { x with blobs := x.blobs ++ pre }
+  let o := ingest id x'
+  let disk := if store = "dir" ∧ ingestMod x then persist o else x
+  observe df store o disk
+
+def step (df : Def) (line : String) : Def × Option String :=
+  let s := df.st
+  match (line.trimAscii.toString.splitOn " ").filter (· ≠ "") with
+  | ["NEW"] => ({}, some "ok")
+  | "HDR" :: rest => ({ df with st := { s with converted := kvI rest "conv" = "1" } }, some "ok")
   | "MAN" :: name :: rest =>
-    let n := INode.man (kvI rest "subj") (kvI rest "mt") (kvI rest "cfgmt") (kvI rest "at") (kvI rest "ann") ((kvI rest "len").toNat?.getD 0)
-    loop h out { s with blobs := s.blobs ++ [(name, n)] } (mans ++ [name])
-  | ["RAW", name] => loop h out { s with blobs := s.blobs ++ [(name, .raw)] } mans
-  | ["IDX"] => loop h out { s with blobs := s.blobs ++ [(idxName [], .idx [])] } mans
+    let cfg := if kvI rest "cfgmt" = "none" then none else some (kvI rest "cfgmt")
+    let kids := if hasKey rest "kids" then some (parseDs (kvI rest "kids")) else none
+    let n := INode.man (kvI rest "subj") (kvI rest "mt") cfg (kvI rest "at") (kvI rest "ann") ((kvI rest "len").toNat?.getD 0) kids
+    ({ st := { s with blobs := s.blobs ++ [(name, n)] }, mans := df.mans ++ [name] }, some "ok")
+  | ["RAW", name] => ({ df with st := { s with blobs := s.blobs ++ [(name, .raw)] } }, some "ok")
+  | ["IDXN", name] => ({ df with st := { s with blobs := s.blobs ++ [(name, .idxnil)] } }, some "ok")
+  | ["IDX"] => ({ df with st := { s with blobs := s.blobs ++ [(idxName [], .idx [])] } }, some "ok")
   | ["IDX", ds] =>
-    let descs := (splitTop ds).map parseD
-    loop h out { s with blobs := s.blobs ++ [(idxName descs, .idx descs)] } mans
+    let descs := parseDs ds
+    ({ df with st := { s with blobs := s.blobs ++ [(idxName descs, .idx descs)] } }, some "ok")
   | "TOP" :: rest =>
     let tag := kvI rest "tag"; let subj := kvI rest "subj"
     let d : Desc := { dig := kvI rest "dig", mt := kvI rest "mt", size := (kvI rest "size").toNat?.getD 0,
                       ann := if tag = "" ∧ subj = "" then {} else { isNil := false, tag := tag, subj := subj } }
-    loop h out { s with index := { s.index with manifests := s.index.manifests ++ [d] } } mans
-  | ["RUN"] => out.putStrLn (run s mans); loop h out {} []
-  | _ => out.putStrLn "bad-op"; loop h out s mans
+    ({ df with st := { s with index := { s.index with manifests := s.index.manifests ++ [d] } } }, some "ok")
+  | "INGEST" :: rest => (df, some (runIngest df (kvI rest "store")))
+  | "REOPEN" :: rest => (df, some (runReopen df (kvI rest "store")))
+  | "CRASH" :: rest => (df, some (runCrash df (kvI rest "store") ((kvI rest "k").toNat?.getD 0)))
+  | _ => (df, some "bad-op")
 
-def main : IO Unit := do loop (← IO.getStdin) (← IO.getStdout) {} []
+partial def loop (h : IO.FS.Stream) (out : IO.FS.Stream) (df : Def) : IO Unit := do
+  let line ← h.getLine
+  if line.isEmpty then return ()
+  let (df', o) := step df line
+  match o with
+  | some a => out.putStrLn a
+  | none => pure ()
+  loop h out df'
+
+def main : IO Unit := do loop (← IO.getStdin) (← IO.getStdout) {}
